@@ -39,8 +39,15 @@ import (
 	"verifharness/vh"
 )
 
+// extraCommands: sub-commands registered by the other files of this driver (init functions)
+var extraCommands = vh.Commands{}
+
 func main() {
-	vh.Main(vh.Commands{"trace": cmdTrace, "cli": cmdCLI, "wrap": cmdWrap, "replay": cmdReplay, "wrapreplay": cmdWrapReplay})
+	cmds := vh.Commands{"trace": cmdTrace, "cli": cmdCLI, "wrap": cmdWrap, "replay": cmdReplay, "wrapreplay": cmdWrapReplay}
+	for k, f := range extraCommands {
+		cmds[k] = f
+	}
+	vh.Main(cmds)
 }
 
 // ------------------------------------------------------------------ templates (Captures!Eval)
